@@ -86,7 +86,7 @@ def one_dataset(args):
     wd = workdir("sim")
     cases, problems = [], []
     try:
-        dt = [1800, 3600][idx % 2]
+        dt = [1800, 3600, 3000][idx % 3]      # 50 min: a day is not a whole number of steps
         poly, sydiv = POLYS[idx % 2]
         curvature = [0.0, 250.0][(idx // 2) % 2]
         mix = [1, 2, 0][(idx // 4) % 3] if curvature else 0      # sections of different types: units of T
